@@ -71,6 +71,12 @@ pub assume_specification<T, E, F, O: FnOnce(E) -> Result<T, F>> [ Result::<T, E>
     requires r matches Err(e) ==> op.requires((e,)),
     ensures match r { Ok(t) => out == Ok::<T, F>(t), Err(e) => op.ensures((e,), out) };
 
+pub assume_specification<T, F: FnOnce() -> Option<T>> [ Option::<T>::or_else ] (o: Option<T>, f: F) -> (out: Option<T>)
+    requires o is None ==> f.requires(()),
+    ensures match o { Some(t) => out == Some(t), None => f.ensures((), out) };
+pub assume_specification<T> [ Option::<T>::or ] (o: Option<T>, b: Option<T>) -> (out: Option<T>)
+    ensures out == (if o is Some { o } else { b });
+
 pub assume_specification<T: Ord> [ core::cmp::min::<T> ] (a: T, b: T) -> (r: T)
     ensures r == (if vstd::std_specs::cmp::OrdSpec::cmp_spec(&a, &b) == core::cmp::Ordering::Greater { b } else { a });
 
